@@ -295,6 +295,35 @@ for ename, enabled in enabled_values().items():
         "same": dec is InvSub and all(vars(InvSub).get(k) is v for k, v in orig_dict.items()),
         "vars_unchanged": set(vars(InvSub)) == set(orig_dict), "ok": run_call(ok_sub), "bad": run_call(bad_sub)}
 
+    # ---- invariants whose arguments only an ENABLED invariant refuses (an asynchronous condition, an invalid error): when the decorator
+    # is disabled it is absent - nothing is validated, nothing is raised (the check skips these items when the decorator is enabled)
+    async def async_condition(self):
+        return True
+
+    for what, make in (("invariant-async-condition", lambda: icontract.invariant(async_condition, **kw(enabled))),
+                       ("invariant-invalid-error", lambda: icontract.invariant(inv_pos, error=42, **kw(enabled)))):
+        class InvX:
+            def __init__(self, v):
+                self.v = v
+
+            def get(self):
+                probe("body", None)
+                return self.v
+
+        orig_dict = dict(vars(InvX))
+        try:
+            dec = make()(InvX)
+        except BaseException as err:  # pylint: disable=broad-except
+            REPORT["items"]["{}/plain/{}".format(what, ename)] = {
+                "same": False, "vars_unchanged": False, "decoration_error": "{}: {}".format(type(err).__name__, err),
+                "ok": {"outcome": "raise", "type": type(err).__name__, "message": "decoration failed", "events": []},
+                "bad": {"outcome": "raise", "type": type(err).__name__, "message": "decoration failed", "events": []}}
+        else:
+            REPORT["items"]["{}/plain/{}".format(what, ename)] = {
+                "same": dec is InvX and all(vars(InvX).get(k) is v for k, v in orig_dict.items()),
+                "vars_unchanged": set(vars(InvX)) == set(orig_dict),
+                "ok": run_call(lambda cls=InvX: cls(1).get()), "bad": run_call(lambda cls=InvX: cls(-1).get())}
+
     # ---- invariant with check_on=SETATTR
     class InvS:
         def __init__(self):
